@@ -221,6 +221,13 @@ def check_case(case, res):
         res.count("configurations")
         try:
             e, subs, m = build(case)
+            if case["valseed"] % 3 == 0:
+                # set up all, then start all: another program object of the
+                # class (with sub-programs of the same classes) exists
+                # before this one is loaded
+                sibling = type(e)(subprograms=[type(s_)() for s_ in subs])
+                sibling.vf_consts = e.vf_consts
+                res.count("programs_loaded_after_a_sibling_was_constructed")
             ld = prog.Loaded(e, sess)
             ld.load()
         except (AssembleError, KeyError, AttributeError, TypeError) as ex:
